@@ -16,7 +16,7 @@ run_demo() { # prints PASS/FAIL
   local tag=$1
   if [ -f $S/out/demo$K.rs ]; then
      # integration test file: location from the md (pilota/tests, pilota-build/tests, pilota-thrift-parser/tests)
-     local crate=$(grep -oE "cargo test[^\n]*-p +[a-z-]+" $S/out/demo$K.md | head -1 | grep -oE "\-p +[a-z-]+" | awk '{print $2}')
+     local crate=$(grep -oE "cargo test.*-p +[a-z-]+" $S/out/demo$K.md | head -1 | grep -oE "\-p +[a-z-]+" | awk '{print $2}')
      [ -z "$crate" ] && crate=pilota
      mkdir -p $crate/tests; cp $S/out/demo$K.rs $crate/tests/seed_demo.rs
      local feat=""; grep -q "features pb-encode-default-value" $S/out/demo$K.md && feat="--features pb-encode-default-value"
